@@ -19,6 +19,17 @@ const VAR_NAME_START_CHARS: [char; 52] = [
 ];
 const VAR_NAME_INDEX_PRESERVE: usize = 26; // 'A' ~ 'Z' are preserved
 
+// generated names that must be skipped: reserved words (including strict mode ones)
+// and global names which the generated code refers to
+const VAR_NAME_FORBIDDEN: [&'static str; 59] = [
+    "break", "case", "catch", "class", "const", "continue", "debugger", "default", "delete", "do",
+    "else", "enum", "export", "extends", "false", "finally", "for", "function", "if", "import",
+    "in", "instanceof", "new", "null", "return", "super", "switch", "this", "throw", "true", "try",
+    "typeof", "var", "void", "while", "with", "yield", "let", "static", "implements", "interface",
+    "package", "private", "protected", "public", "await", "eval", "arguments", "undefined", "NaN",
+    "Infinity", "Object", "Array", "String", "Error", "require", "exports", "module", "async",
+];
+
 #[derive(Debug, Clone)]
 pub(crate) struct JsIdent {
     name: String,
@@ -44,6 +55,18 @@ struct JsBlockStat {
 }
 
 impl JsBlockStat {
+    /// Allocate the next local variable name (skipping names that cannot be used).
+    fn next_ident_name(&mut self) -> String {
+        loop {
+            let var_id = self.ident_id_inc;
+            self.ident_id_inc += 1;
+            let name = get_var_name(var_id);
+            if !VAR_NAME_FORBIDDEN.contains(&name.as_str()) {
+                return name;
+            }
+        }
+    }
+
     fn new() -> Self {
         Self {
             need_stat_sep: false,
@@ -181,10 +204,8 @@ impl<'a, W: fmt::Write> JsFunctionArgsAssigner<'a, W> {
 
     pub(crate) fn gen_ident(&mut self) -> JsIdent {
         let block = self.get_block_mut();
-        let var_id = block.ident_id_inc;
-        block.ident_id_inc += 1;
         JsIdent {
-            name: get_var_name(var_id),
+            name: block.next_ident_name(),
         }
     }
 }
@@ -225,10 +246,8 @@ impl<'a, W: fmt::Write> JsFunctionScopeWriter<'a, W> {
 
     pub(crate) fn gen_ident(&mut self) -> JsIdent {
         let block = self.get_block_mut();
-        let var_id = block.ident_id_inc;
-        block.ident_id_inc += 1;
         JsIdent {
-            name: get_var_name(var_id),
+            name: block.next_ident_name(),
         }
     }
 
@@ -298,10 +317,8 @@ impl<'a, W: fmt::Write> JsFunctionScopeWriter<'a, W> {
 
     pub(crate) fn declare_var_on_top_scope(&mut self) -> Result<JsIdent, TmplError> {
         let block = &mut self.top_scope.block;
-        let var_id = block.ident_id_inc;
-        block.ident_id_inc += 1;
         let ident = JsIdent {
-            name: get_var_name(var_id),
+            name: block.next_ident_name(),
         };
         self.top_scope.declare_on_top(&ident.name)?;
         Ok(ident)
@@ -312,9 +329,7 @@ impl<'a, W: fmt::Write> JsFunctionScopeWriter<'a, W> {
         init: impl FnOnce(&mut JsExprWriter<W>, JsIdent) -> Result<R, TmplError>,
     ) -> Result<R, TmplError> {
         let block = &mut self.top_scope.block;
-        let var_id = block.ident_id_inc;
-        block.ident_id_inc += 1;
-        let var_name = get_var_name(var_id);
+        let var_name = block.next_ident_name();
         let ident = JsIdent {
             name: var_name.clone(),
         };
@@ -430,10 +445,8 @@ impl<'a, W: fmt::Write> JsExprWriter<'a, W> {
     #[allow(dead_code)]
     pub(crate) fn declare_var_on_top_scope(&mut self) -> Result<JsIdent, TmplError> {
         let block = &mut self.top_scope.block;
-        let var_id = block.ident_id_inc;
-        block.ident_id_inc += 1;
         let ident = JsIdent {
-            name: get_var_name(var_id),
+            name: block.next_ident_name(),
         };
         self.top_scope.declare_on_top(&ident.name)?;
         Ok(ident)
